@@ -294,6 +294,21 @@ theorem gap_group_dropped (o : GenOpts) (hc : o.combine = true) (g0 conts : List
   · simp only [List.cons_append, List.foldl_cons, hstep]
     simpa using h.2
 
+/-- An unfinished group superseded by a new FIRST: nothing is emitted and nothing of the old group stays open. -/
+theorem first_supersedes (o : GenOpts) (hc : o.combine = true) (g0 : List Bytes) (first : Bytes)
+    (hf : seqFlags first = 1) : autoStep o g0 first = ([first], none, []) := by
+  simp [autoStep, hc, hf]
+
+/-- CONTINUATION or LAST with no open group: dropped with the no-start warning, the APID stays idle. -/
+theorem orphan_dropped (o : GenOpts) (hc : o.combine = true) (b : Bytes) (h1 : seqFlags b ≠ 1) (h3 : seqFlags b ≠ 3) :
+    autoStep o [] b = ([], none, [.warnNoStart]) := by
+  simp [autoStep, hc, h1, h3]
+
+/-- An unsegmented packet is parsed alone and does not disturb the APID's open group. -/
+theorem unsegmented_step (o : GenOpts) (g : List Bytes) (b : Bytes) (h3 : seqFlags b = 3) :
+    autoStep o g b = (g, some [b], []) := by
+  simp [autoStep, h3]
+
 /-- … and the same for the model itself under every interleaving: whatever packets of other APIDs are mixed in, and
     whatever groups those APIDs have open, if APID `a`'s own sub-history is FIRST, CONTINUATION*, LAST with consecutive
     counts then the outputs at `a`'s packets are: nothing, …, nothing, the whole group as one packet. -/
